@@ -7,6 +7,7 @@
 -/
 import CnvVerif.Props.C04
 import CnvVerif.Lemmas.FixPlanExt5
+import CnvVerif.Lemmas.SrcFixPlan
 namespace CnvVerif.C04
 open CnvVerif
 
